@@ -9,7 +9,10 @@
                 <file> i<docindex> <lit table> <re table> <value table>)
      -> (ok ((s<line> ...) true|false)) | (raise ...)      PathsPrint.process_doc
    value table = ((s<path text> (ok s<text>) | ype | (crash Name)) ...)
-   mtable = ((i<oid> (i<pos> ...) (<node> ...)) ...) *)
+   mtable = ((i<oid> (i<pos> ...) (<node> ...)) ...)
+   (paths-docwf <doc> <mtable>) -> (ok (true|false true|false true|false))
+     SpecC07.same_oid_same_tree, c07_keys_leaf, merged_closed: the document well-formedness
+     from which the loader guarantee shared_closed is PROVED (C07_shared_closed_from_wf) *)
 open Model
 open Sexp
 open Wire
@@ -110,6 +113,13 @@ let handle (cmd : string) (args : t list) : t option =
     Some (run_search args (fun h ->
         L [s h.h_path; L (List.map sexp_of_ref h.h_loc); A (kind_name h.h_kind)]))
   | "paths-print" -> Some (run_print args)
+  | "paths-docwf" ->
+    (match args with
+     | [d; mtb] ->
+       let doc = node_of_sexp d in
+       Some (L [A "ok"; L [bs (same_oid_same_tree doc); bs (c07_keys_leaf doc);
+                           bs (merged_closed (mtable_of_sexp mtb) doc [])]])
+     | _ -> failwith "paths-docwf: bad arguments")
   | "search-term" ->
     (match args with
      | [expr] -> Some (outcome_sexp (sexp_of_option terms_sexp) (get_search_term (str_atom expr)))
